@@ -33,7 +33,10 @@ func taintFromPolicy(f *core.Func, excl map[types.Object]bool, cut func(call *as
 			t[s] = true
 		}
 	}
-	mentions := func(n ast.Node) bool {
+	projected := map[ast.Expr]bool{}
+	var mentionsNode func(n ast.Node) bool
+	mentions := func(n ast.Node) bool { return mentionsNode(n) }
+	mentionsNode = func(n ast.Node) bool {
 		if n == nil {
 			return false
 		}
@@ -44,6 +47,25 @@ func taintFromPolicy(f *core.Func, excl map[types.Object]bool, cut func(call *as
 			}
 			if c, ok := m.(*ast.CallExpr); ok && cut != nil && cut(c) {
 				return false
+			}
+			// X.F of a local that is a pure keyed struct literal: only the value given to F counts, not the other fields
+			if sel, ok := m.(*ast.SelectorExpr); ok {
+				if bid, isId := core.Unparen(sel.X).(*ast.Ident); isId {
+					if v, isVar := info.Uses[bid].(*types.Var); isVar && !v.IsField() {
+						if val := core.LiteralFieldOf(f, v, sel.Sel.Name); val != nil {
+							if projected[val] {
+								return false
+							}
+							projected[val] = true
+							sub := mentionsNode(val)
+							delete(projected, val)
+							if sub {
+								found = true
+							}
+							return false
+						}
+					}
+				}
 			}
 			if id, ok := m.(*ast.Ident); ok {
 				if o := info.Uses[id]; o != nil && t[o] {
